@@ -404,3 +404,88 @@ Proof.
   destruct (fst u =? snd u) eqn:E; [|reflexivity].
   destruct u as [s e]; cbn [fst snd] in E. assert (s = e) by lia; subst e. now rewrite slice_empty.
 Qed.
+
+(* ---------------------------------------------------------------------------------------- *)
+(* D. C30_bytes_exact                                                                        *)
+(* ---------------------------------------------------------------------------------------- *)
+Lemma single_piece_covers1 o : forall us, single_piece us o = true -> covers1 us o.
+Proof.
+  induction us as [|u us IH]; cbn [single_piece covers1]; intro H; [discriminate|].
+  destruct ((fst u <=? fst o) && (fst o <? snd u)) eqn:E.
+  - left. lia.
+  - right. apply andb_true_iff in H. destruct H as [H1 H2]. split; [lia | apply IH, H2].
+Qed.
+
+Lemma Inv_intro us : forall os,
+  (forall o, In o os -> fst o < snd o /\ covers us o) ->
+  starts_sorted os = true -> straddle_ok us os = true -> Inv us os.
+Proof.
+  induction os as [|o os IH]; intros Hall Hsort Hstr; [exact I|].
+  destruct (starts_sorted_cons _ _ Hsort) as [Hs Hsort'].
+  cbn [straddle_ok] in Hstr. apply andb_true_iff in Hstr. destruct Hstr as [Hd Hstr'].
+  cbn [Inv]. split; [|apply IH; [intros x Hx; apply Hall; right; exact Hx | exact Hsort' | exact Hstr']].
+  destruct (Hall o (or_introl eq_refl)) as [Hne Hc].
+  repeat split; [exact Hne | exact Hc | exact Hs |].
+  apply orb_true_iff in Hd. destruct Hd as [Hd | Hd].
+  - left. apply single_piece_covers1, Hd.
+  - right. rewrite forallb_forall in Hd. apply Forall_forall. intros x Hx. specialize (Hd x Hx). lia.
+Qed.
+
+Lemma updated_requests_spec f bs mx rs us :
+  0 < mx -> starts_sorted rs = true -> in_file f rs = true ->
+  updated_requests bs mx rs = Ok us ->
+  Forall (wf_in f) us /\ (forall o, In o rs -> fst o < snd o -> covers us o).
+Proof.
+  intros Hmx Hsort Hfile Hrun. unfold updated_requests in Hrun.
+  destruct (coalesce bs rs) as [ms| |] eqn:Ems; try discriminate. cbn [bind] in Hrun.
+  destruct (split_all mx ms) as [us'| |] eqn:Eus; try discriminate. cbn [bind] in Hrun.
+  destruct (sizes_chk us') as [l| |] eqn:El; try discriminate. cbn [bind] in Hrun.
+  inversion Hrun; subst us'; clear Hrun.
+  assert (HB : Forall (fun r => snd r <= blen f) rs).
+  { unfold in_file in Hfile. rewrite forallb_forall in Hfile. apply Forall_forall.
+    intros x Hx. specialize (Hfile x Hx). lia. }
+  destruct rs as [|r rest].
+  - cbn [coalesce] in Ems. inversion Ems; subst ms. cbn [split_all] in Eus. inversion Eus; subst us.
+    split; [constructor | intros o []].
+  - cbn [coalesce] in Ems. destruct (starts_sorted_cons _ _ Hsort) as [Hge Hsort'].
+    apply Forall_cons_iff in HB. destruct HB as [HBr HB].
+    split.
+    + pose proof (coalesce_go_ends bs (blen f) _ _ _ Ems HBr HB) as Hme.
+      pose proof (split_all_ends mx (blen f) Hmx _ _ Eus Hme) as Hue.
+      pose proof (sizes_chk_ok _ _ El) as Hwf.
+      rewrite Forall_forall in *. intros u Hu. split; [apply Hwf, Hu | apply Hue, Hu].
+    + intros o Ho Hne. apply (split_all_covers mx Hmx ms us o Eus Hne).
+      apply (coalesce_go_covers bs _ _ _ Ems Hge Hsort').
+      destruct Ho as [Ho | Ho]; [subst o; left; lia | right; exact Ho].
+Qed.
+
+Theorem bytes_exact f bs mx rs :
+  in_file f rs = true -> Dom_C30 bs mx rs = true ->
+  submit_request f bs mx rs = Ok (map (slice f) rs).
+Proof.
+  intros Hfile Hdom. unfold Dom_C30 in Hdom.
+  repeat (apply andb_true_iff in Hdom; destruct Hdom as [Hdom ?]).
+  destruct (updated_requests bs mx rs) as [us| |] eqn:Eus; try discriminate.
+  assert (Hmx : 0 < mx) by lia.
+  destruct (updated_requests_spec f bs mx rs us Hmx H2 Hfile Eus) as [Hwf Hcov].
+  unfold submit_request, submit_request_f. rewrite Eus. cbn [bind].
+  change (read_all f (fun _ => false) us) with (read_all f no_fail us).
+  rewrite read_all_ok. cbn [bind].
+  apply walk_ok; [exact Hwf | |].
+  - unfold in_file in Hfile. rewrite forallb_forall in Hfile. apply Forall_forall.
+    intros x Hx. specialize (Hfile x Hx). lia.
+  - apply Inv_intro; [|assumption|assumption].
+    intros o Ho. unfold all_nonempty in H1. rewrite forallb_forall in H1. specialize (H1 o Ho).
+    split; [lia | apply Hcov; [exact Ho | lia]].
+Qed.
+
+Lemma list_eqb_refl {A} (eqb : A -> A -> bool) : (forall x, eqb x x = true) -> forall l, list_eqb eqb l l = true.
+Proof. intros H; induction l; cbn [list_eqb]; [reflexivity | rewrite H, IHl; reflexivity]. Qed.
+
+Lemma exact_result_iff f rs res : exact_result f rs res = true <-> res = Ok (map (slice f) rs).
+Proof.
+  unfold exact_result. destruct res as [bufs| |]; [|split; discriminate|split; discriminate].
+  assert (Hb : forall x y : bytes, bytes_eqb x y = true <-> x = y).
+  { apply list_eqb_eq. intros; apply N.eqb_eq. }
+  rewrite (list_eqb_eq bytes_eqb Hb). split; [intros ->; reflexivity | intro H; inversion H; reflexivity].
+Qed.
